@@ -65,3 +65,40 @@ func H_C17_Order() {
 	zzvrt.Assert(lastLen == 2, "C17.older-snapshot-delivered-last")
 	zzvrt.Cover("c17.end")
 }
+
+// H_C17_OrderReq: a program of three operations from {add one, add two, remove one, the hub asks for the known entries
+// (RequestMdnsEntries)}, every scheduling of the asynchronous report deliveries: once everything has settled the last list
+// the application received is the final set (an application that never received a list still assumes the empty set).
+func H_C17_OrderReq() {
+	m := NewMDNS(c17Local, "", "", "", "", nil, "id", "svc", 1, nil, MdnsProviderSelectionAll)
+	m.mdnsProvider = &vProvider{}
+	rep := &vOrderReport{}
+	m.report = rep
+	for i := 0; i < 3; i++ {
+		switch zzvrt.Choice("op", 4) {
+		case 0:
+			m.processMdnsEntry(c17Elements("ski-one"), "n1", "h1", nil, 1, false)
+		case 1:
+			m.processMdnsEntry(c17Elements("ski-two"), "n2", "h2", nil, 2, false)
+		case 2:
+			m.processMdnsEntry(c17Elements("ski-one"), "n1", "h1", nil, 1, true)
+		case 3:
+			m.RequestMdnsEntries()
+		}
+		if !zzvrt.Symbolic() {
+			time.Sleep(2 * time.Millisecond)
+		}
+	}
+	zzvrt.WaitQuiescent()
+	m.mux.Lock()
+	final := len(m.entries)
+	m.mux.Unlock()
+	rep.mu.Lock()
+	reports, lastLen := rep.reports, rep.lastLen
+	rep.mu.Unlock()
+	if reports == 0 {
+		lastLen = 0
+	}
+	zzvrt.Assert(lastLen == final, "C17.last-delivered-list-differs-from-the-final-set")
+	zzvrt.Cover("c17.end")
+}
